@@ -19,7 +19,7 @@ Init == i \in 1..Len(Cases)
 Next == UNCHANGED i
 
 EventResponseOK(c, k, resp) ==
-  LET r == Execute([schema |-> c.schema, doc |-> c.doc, vars |-> c.vars, root |-> c.events[k]]) IN
+  LET r == Execute([schema |-> c.schema, doc |-> c.doc, vars |-> c.vars, root |-> c.events[k], noIncr |-> TRUE]) IN
   /\ ~r.requestError
   /\ r.data = resp.data
   \* per-event execution may be asynchronous: errors below an already nulled position depend on timing,
